@@ -393,8 +393,34 @@ func genDistr(g *Gen, n int, faults bool) {
 			}{"upper", bigOf("333333333333333333"), gAcc{distrtypes.BaseAccount, strings.ToUpper(other)}})
 			g.count("shape/two-spellings-destinations")
 		}
+		chained := false
+		if !dust && faults && sc%5 == 4 {
+			// directed shape: a module account that is a DESTINATION of one sub-distributor and the SOURCE of
+			// a later one (its state carries a fractional remainder, its bank balance the paid integer part),
+			// and the sweep of exactly that account fails in one block: the remainder must stay booked
+			subs = []gSub{
+				{name: "up", sources: []gAcc{{distrtypes.Main, ""}}, primary: gAcc{distrtypes.ModuleAccount, "green_energy_booster_collector"}, burn: big.NewInt(0)},
+				{name: "down", sources: []gAcc{{distrtypes.ModuleAccount, "green_energy_booster_collector"}}, primary: gAcc{distrtypes.BaseAccount, vaddr(78)}, burn: big.NewInt(0)},
+			}
+			subs[0].shares = append(subs[0].shares, struct {
+				name  string
+				share *big.Int
+				dest  gAcc
+			}{"part", bigOf(g.pick("333333333333333333", "100000000000000001")), gAcc{distrtypes.ModuleAccount, "governance_booster_collector"}})
+			chained = true
+			g.count("shape/chained-source-sweep-fault")
+		}
 		emitDistrConfig(g, subs)
 		g.emit("d.setparams")
+		if chained {
+			mainA := authtypes.NewModuleAddress(distrtypes.DistributorMainAccount).String()
+			g.emit("d.credit %s [uc4e=%d]", mainA, 1001+g.intn(1000)*3)
+			g.emit("d.bb")
+			g.emit("d.credit %s [uc4e=%d]", mainA, 1001+g.intn(1000)*3)
+			g.emit("d.faults 0") // the first bank call of the block is the sweep of the chained account
+			g.emit("d.bb")
+			g.emit("d.bb")
+		}
 		// inflow targets: main, module and base sources
 		var targets []string
 		targets = append(targets, authtypes.NewModuleAddress(distrtypes.DistributorMainAccount).String())
